@@ -181,6 +181,8 @@ Vector ==
         @@ (IF dl # rl THEN [dlenient |-> dl] ELSE <<>>)
 SchemaVector == [phase |-> "schema", cfg |-> CfgIndex(cfg), schema |-> Schema(cfg),
                  roots |-> RootSeq]
+\* exploring the initial states only: the schema vectors (used by drivers on the implementation side)
+OnlyInit == phase = "init"
 Emit ==
     IF ~EmitVectors THEN TRUE
     ELSE CASE phase = "init" -> PrintT(<<"VEC", ToJson(SchemaVector)>>)
